@@ -1,4 +1,5 @@
 import JokerVerif.Lemmas.RejectLemmas
+import JokerVerif.Props.C01
 /-!
 # C06 — reported `ln_prior` / `ln_likelihood` stay attached to their own sample
 
@@ -110,3 +111,39 @@ example : (match rejectionSample c06Exp c06LL c06Lib ⟨none, some 2, 1⟩ (some
 
 end Examples
 end Reject
+
+/-! ### composition with the kernel theorem of C01 -/
+open Matrix
+
+namespace Kernel
+noncomputable section
+
+/-- **C06 ∘ C01.**  With the kernel's value as the likelihood function and a physical library, the `ln_likelihood`
+reported beside each returned row is the analytic Gaussian marginal `ln N(y | Mμ, C + s²I + MΛMᵀ)` evaluated at
+that row's OWN parameters (and `ln_prior` is the value stored with that row). -/
+theorem reported_ln_likelihood_is_own_analytic_marginal {n k : ℕ}
+    (lib : List (Reject.LibRow (KIn n k ℝ × (Fin n → ℝ)) ℝ)) (hphys : ∀ r ∈ lib, Phys r.nonlin.1 r.nonlin.2)
+    {o : Reject.Opts} {idx : Option (List Nat)} {uu : List ℝ}
+    {out : Reject.Out (KIn n k ℝ × (Fin n → ℝ)) ℝ}
+    (h : Reject.rejectionSample Real.exp (fun q => kll q.1) lib o idx uu = .ok out) :
+    let L : KIn n k ℝ × (Fin n → ℝ) → ℝ := fun q =>
+      lnN (vfun q.1.y) (q.1.M.toM *ᵥ vfun q.1.mu)
+        (Matrix.diagonal (fun i => (q.2 i) ^ 2) + (q.1.s ^ 2) • (1 : Matrix (Fin n) (Fin n) ℝ)
+          + q.1.M.toM * Matrix.diagonal (vfun q.1.lam) * q.1.M.toMᵀ)
+    ∃ recs, Reject.gather lib out.full = some recs ∧
+      out.rows.zip (out.lnPrior.zip out.lnLike) =
+        Reject.rep o.nLinear (recs.map (fun r => (r.nonlin, r.lnPrior, L r.nonlin))) := by
+  intro L
+  obtain ⟨_, recs, hrecs, _, _, _, hzip⟩ := Reject.logprobs_attached h
+  refine ⟨recs, hrecs, ?_⟩
+  rw [hzip]
+  congr 1
+  apply List.map_congr_left
+  intro r hr
+  obtain ⟨i, _, hi⟩ := Reject.mem_of_gather hrecs r hr
+  have hmem : r ∈ lib := List.mem_of_getElem? hi
+  simp only [Prod.mk.injEq, true_and]
+  exact kernel_ll_eq_lnN r.nonlin.1 r.nonlin.2 (hphys r hmem)
+
+end
+end Kernel
